@@ -314,6 +314,8 @@ def parse_iz(chunk):
         kv = dict(f.split("=", 1) for f in line.split(",") if "=" in f)
         if "i" in kv:
             out.append((int(kv["i"]), int(kv.get("z", "0"))))
+        elif line.startswith("p") and line[1:].isdigit():      # print text: the model's item (i, -1)
+            out.append((int(line[1:]), -1))
     return out
 
 
@@ -326,6 +328,9 @@ COQ_CHAINS = [  # (chain id in FlushModel.zchain, argv, retaining)
     (5, ["put", "$z = NR", "then", "filter", "$i % 2 == 1"], False),
     (6, ["tac"], True),
     (7, ["put", "$z = NR", "then", "tac", "then", "head", "-n", "3"], True),
+    # output consisting of print TEXT: the writer's per-item flush must follow strings as well as records
+    (8, ["put", "-q", "print \"p\" . $i"], False),
+    (9, ["put", "print \"p\" . $i", "then", "head", "-n", "3"], False),
 ]
 
 
